@@ -20,13 +20,17 @@ HERE = os.path.dirname(os.path.dirname(os.path.dirname(os.path.abspath(__file__)
 TLA = os.path.join(HERE, "models", "RWLock.tla")
 
 
-def run_tlc(nr, nw, rounds, workdir):
+def run_tlc(nr, nw, rounds, workdir, loop=False):
     shutil.copy(TLA, os.path.join(workdir, "RWLock.tla"))
     with open(os.path.join(workdir, "RWLock.cfg"), "w") as f:
-        f.write("CONSTANTS NR = %d NW = %d Rounds = %d\n" % (nr, nw, rounds))
+        f.write("CONSTANTS NR = %d NW = %d Rounds = %d Loop = %s\n"
+                % (nr, nw, rounds, "TRUE" if loop else "FALSE"))
         f.write("SPECIFICATION Spec\n")
-        f.write("INVARIANT TypeOK MutualExclusion FreeAtEnd\n")
-        f.write("PROPERTY Termination\n")
+        if loop:
+            f.write("INVARIANT TypeOK MutualExclusion\n")
+        else:
+            f.write("INVARIANT TypeOK MutualExclusion FreeAtEnd\n")
+            f.write("PROPERTY Termination\n")
     dot = os.path.join(workdir, "graph.dot")
     r = subprocess.run(
         ["tlc", "-workers", "1", "-noGenerateSpecTE", "-metadir",
@@ -277,6 +281,43 @@ def conformance(nr, nw, rounds, fields, dot):
                 states=len(states))
 
 
+def no_lost_wakeup(dot, nthreads):
+    """On the graph of the never-terminating model (every thread repeats its
+    round forever): from EVERY reachable state EVERY thread can still reach
+    its critical section (AG EF inside(t)) - nobody is left waiting for a
+    wake-up that cannot come - and no state is a dead end.  Own graph search
+    on TLC's dump (backward reachability per thread)."""
+    init, states, edges = parse_dot(dot)
+    pred = {}
+    out = {}
+    for (a, b, t) in edges:
+        pred.setdefault(b, []).append(a)
+        out.setdefault(a, 0)
+        out[a] += 1
+    dead = [s for s in states if not out.get(s)]
+    res = {"states": len(states), "edges": len(edges),
+           "dead_end_states": len(dead), "threads_that_can_always_enter": 0}
+    bad = None
+    for t in range(nthreads):
+        goal = [s for s, st in states.items() if st["pc"][t] in (7, 24)]
+        seen = set(goal)
+        stack = list(goal)
+        while stack:
+            x = stack.pop()
+            for y in pred.get(x, ()):
+                if y not in seen:
+                    seen.add(y)
+                    stack.append(y)
+        if len(seen) == len(states):
+            res["threads_that_can_always_enter"] += 1
+        elif bad is None:
+            miss = [s for s in states if s not in seen][0]
+            bad = dict(thread=t + 1, state=str(states[miss]))
+    if dead or bad:
+        res["lost_wakeup_in_model"] = bad or dict(dead_end=str(states[dead[0]]))
+    return res
+
+
 def run(ctx, fields):
     configs = ctx.pick([(1, 1, 1), (2, 1, 1), (1, 2, 1)],
                        [(1, 1, 2), (2, 1, 1), (1, 2, 1), (2, 2, 1), (2, 1, 2),
@@ -305,6 +346,23 @@ def run(ctx, fields):
             res["model_states"] += nstates
             if "model_divergence" in c:
                 res["model_divergence"] = c["model_divergence"]
+        finally:
+            shutil.rmtree(wd, ignore_errors=True)
+    # unbounded use: never-terminating variant of the same model
+    res["unbounded_rounds"] = {}
+    for (nr, nw) in ctx.pick([(2, 1), (1, 2)], [(2, 1), (1, 2), (2, 2),
+                                                 (3, 1)]):
+        wd = tempfile.mkdtemp(prefix="tlc_", dir="/var/tmp")
+        try:
+            ok, nstates, dot, tail = run_tlc(nr, nw, 1, wd, loop=True)
+            label = "r%dw%d" % (nr, nw)
+            if not ok:
+                res["unbounded_rounds"][label] = {"tlc": "FAILED",
+                                                  "output": tail}
+                res["model_divergence"] = "TLC reports an error in the " \
+                    "never-terminating model"
+                continue
+            res["unbounded_rounds"][label] = no_lost_wakeup(dot, nr + nw)
         finally:
             shutil.rmtree(wd, ignore_errors=True)
     res["seconds"] = round(time.time() - t0, 1)
